@@ -23,7 +23,7 @@
    the three streams of the case (digest = the deterministic protobuf encoding of the payload). *)
 From stdpp Require Import gmap.
 From Verif.C02 Require Import Model Spec.
-From Verif.C01 Require Import Model Compose L3Reflag.
+From Verif.C01 Require Import Model Compose L3Reflag Vxlan.
 Local Open Scope N_scope.
 
 Definition dp_of (ms : list msg) : world := apply_msgs world0 ms.
@@ -133,6 +133,29 @@ Definition check_l3 (c : l3case) : bool * bool :=
   (bool_decide (net RT (n_outs (l3_node blk8 (l_reflag c)) batches) = obs),
    l_plain c && forallb (λ c0, bool_decide (obs !! c0 = route_of blk8 i c0)) cands).
 
-Inductive case := mkCase (c : gcase) | mkL3 (c : l3case).
+(* ------------------------------------------------------------------ the VXLAN resolver slice (Vxlan.v), IPv4 + IPv6
+   The driver feeds the REAL VXLANResolver Node resources and VXLAN host config of 3 nodes; the operations are already
+   the model's (one Go handler call each). *)
+Definition T (mac4 tun4 par4 mac6 tun6 par6 : option N) : vtep :=
+  {| t_mac4 := mac4; t_tun4 := tun4; t_par4 := par4; t_mac6 := mac6; t_tun6 := tun6; t_par6 := par6 |}.
+
+Record vxcase := mkVXCase {
+  x_ops : list vxop;
+  x_table : list (N * vtep);               (* the VTEP table the real resolver's callbacks add up to *)
+  x_gen : list (N * (N * N));              (* node -> its deterministic IPv4 / IPv6 tunnel MAC (vtepMACForHost without config) *)
+  x_nopanic : bool
+}.
+Definition gen_of (g : list (N * (N * N))) (n : N) (v6 : bool) : N :=
+  match (list_to_map g : gmap N (N * N)) !! n with Some p => if v6 then p.2 else p.1 | None => 0 end.
+
+Definition check_vx (c : vxcase) : bool * bool :=
+  let gen := gen_of (x_gen c) in
+  let obs : gmap N vtep := list_to_map (x_table c) in
+  let i := net VXIN (x_ops c) in
+  let cands := (x_table c).*1 ++ (x_gen c).*1 ++ map vx_node (x_ops c) in
+  (bool_decide (net VT (n_outs (vx_nodeN gen) (x_ops c)) = obs),
+   x_nopanic c && forallb (λ n, bool_decide (obs !! n = vtep_of gen i n)) cands).
+
+Inductive case := mkCase (c : gcase) | mkL3 (c : l3case) | mkVX (c : vxcase).
 Definition check_case (c : case) : bool * bool :=
-  match c with mkCase g => check_graph g | mkL3 l => check_l3 l end.
+  match c with mkCase g => check_graph g | mkL3 l => check_l3 l | mkVX x => check_vx x end.
